@@ -74,3 +74,106 @@ class FitStubs:
         return patched(("pyhf.infer.test_statistics", "fit", self.fit),
                        ("pyhf.infer.test_statistics", "fixed_poi_fit", self.fixed_poi_fit),
                        ("pyhf.infer.calculators", "fixed_poi_fit", self.fixed_poi_fit))
+
+
+class MinimizeStub:
+    """stands in for scipy.optimize.minimize (SLSQP): returns an arbitrary point that satisfies the
+    bounds and equality constraints *it was passed*, with fun = func(x) (the objective it was handed,
+    evaluated for real) - nothing about optimality."""
+
+    def __init__(self, env, success=True, prefix="opt"):
+        self.env, self.success, self.prefix, self.calls = env, success, prefix, []
+
+    def __call__(self, func, x0, method=None, jac=None, bounds=None, constraints=(), tol=None, options=None, **kw):
+        import scipy.optimize
+        env = self.env
+        tb = pyhf.tensorlib
+        k = len(self.calls)
+        n = len(x0)
+        xs = [env.sym(f"{self.prefix}{k}_x{i}") for i in range(n)]
+        if bounds is not None:
+            for i, b in enumerate(bounds):
+                if b is None:
+                    continue
+                lo, hi = b
+                if lo is not None:
+                    env.assume(env.num(xs[i]) >= env.num(lo))
+                if hi is not None:
+                    env.assume(env.num(xs[i]) <= env.num(hi))
+        xarr = tb.astensor(xs) if n else tb.astensor([])
+        for c in constraints or ():
+            vals = c["fun"](xarr)
+            for v in np.asarray(vals, dtype=object).ravel():
+                env.assume(env.num(v) == 0)
+        fun = func(xarr)
+        self.calls.append(dict(x0=list(x0), bounds=bounds, constraints=constraints, method=method, jac=jac, tol=tol,
+                               options=options, xs=xs, fun=fun))
+        return scipy.optimize.OptimizeResult(x=xarr, fun=fun, success=self.success, message="stub", nfev=1, njev=0)
+
+
+class FakeMinuit:
+    """stands in for iminuit.Minuit: values within limits, fixed components stay at their start
+    values, fval = fcn(values), symbolic errors and a symbolic symmetric correlation matrix"""
+
+    instances = []
+    env = None
+    valid_flag = True
+
+    def __init__(self, fcn, start, grad=None, name=None):
+        self.fcn, self.start, self.grad, self.name = fcn, list(start), grad, name
+        self.limits = None
+        self.fixed = [False] * len(self.start)
+        self.print_level = 0
+        self.errordef = 1
+        self.strategy = None
+        self.tol = None
+        self.valid = False
+        self.values = None
+        self.fval = None
+        self.errors = None
+        self.covariance = None
+        self.nfcn = 0
+        self.ngrad = 0
+        self.hesse_called = False
+        self.k = len(FakeMinuit.instances)
+        FakeMinuit.instances.append(self)
+
+    def migrad(self, ncall=None):
+        env = FakeMinuit.env
+        tb = pyhf.tensorlib
+        vals = []
+        for i, s in enumerate(self.start):
+            if self.fixed[i]:
+                vals.append(s)
+                continue
+            v = env.sym(f"mn{self.k}_x{i}")
+            if self.limits is not None and self.limits[i] is not None:
+                lo, hi = self.limits[i]
+                if lo is not None:
+                    env.assume(env.num(v) >= env.num(lo))
+                if hi is not None:
+                    env.assume(env.num(v) <= env.num(hi))
+            vals.append(v)
+        self.values = tb.astensor(vals) if vals else tb.astensor([])
+        self.fval = self.fcn(self.values)
+        self.valid = FakeMinuit.valid_flag
+        self.nfcn = 1
+        self.fmin = type("FMin", (), {"has_reached_call_limit": False, "is_above_max_edm": not self.valid})()
+        return self
+
+    def hesse(self):
+        env = FakeMinuit.env
+        n = len(self.start)
+        self.hesse_called = True
+        self.errors = [env.sym(f"mn{self.k}_e{i}", nonneg=True) for i in range(n)]
+        corr = [[None] * n for _ in range(n)]
+        for i in range(n):
+            for j in range(i, n):
+                corr[i][j] = corr[j][i] = (1.0 if i == j else env.sym(f"mn{self.k}_c{i}_{j}"))
+        self._corr = corr
+
+        class _Cov:
+            def correlation(cov):
+                return self._corr
+        self.covariance = _Cov()
+        return self
